@@ -30,6 +30,10 @@ fn arg_map(args: &[String]) -> HashMap<String, String> {
     m
 }
 
+fn geti(a: &HashMap<String, String>, k: &str, d: u32) -> u32 {
+    a.get(k).and_then(|s| s.parse().ok()).unwrap_or(d)
+}
+
 fn write_ndjson<T: serde::Serialize>(path: &str, items: &[T]) {
     let mut w = BufWriter::new(File::create(path).unwrap());
     for it in items {
@@ -90,14 +94,42 @@ fn gen_lang(a: &HashMap<String, String>) {
         for &ci in &by_scheme[si] {
             collect_hints(&ctxs[ci - 1], &mut hints);
         }
-        let value_mode = family != "c01" && r.random_range(0..6) == 0;
+        let value_mode = family != "c01" && family != "c13" && family != "c07" && r.random_range(0..6) == 0;
         let mut g = FilterGen {
             r: &mut r,
             spec,
             max_depth,
             hints,
+            call_pct: geti(a, "callpct", 25),
+            list_pct: geti(a, "listpct", 10),
+            set_pct: geti(a, "setpct", 15),
+            set_max: geti(a, "setmax", 4) as usize,
+            nest_pct: geti(a, "nestpct", 33),
+            badname_pct: geti(a, "badname", 0),
         };
-        let mut ts = if value_mode { g.value_expr() } else { g.filter() };
+        let mut max: u16 = 128;
+        let mut ts = if family == "c13" {
+            // nesting shapes: small depths against small limits, and the documented big ones
+            let (n, m): (usize, u16) = if g.r.random_range(0..5) != 0 {
+                let n = g.r.random_range(0..10);
+                let m = if g.r.random_range(0..2) == 0 {
+                    (n as i32 + g.r.random_range(-1..2)).max(0) as u16
+                } else {
+                    g.r.random_range(0..9)
+                };
+                (n, m)
+            } else {
+                let m = [16u16, 64, 128, 129, 200][g.r.random_range(0..5)];
+                let n = (m as i32 + g.r.random_range(-1..2)) as usize;
+                (n, m)
+            };
+            max = m;
+            g.nested(n)
+        } else if value_mode {
+            g.value_expr()
+        } else {
+            g.filter()
+        };
         let mutated = r.random_range(0..100) < mutate_pct;
         if mutated {
             ts = mutate(&mut r, &ts, spec);
@@ -111,14 +143,36 @@ fn gen_lang(a: &HashMap<String, String>) {
         } else {
             random_layout(&mut r, &ts)
         };
-        let max: u16 = 128;
         let mut uses: Vec<String> = spec.fields.iter().map(|f| f.name.clone()).collect();
         uses.truncate(24);
         uses.push("nosuch".into());
         if let Some(f) = spec.funcs.first() {
             uses.push(f.name.clone());
         }
-        let ev = if value_mode {
+        let ev = if family == "c07" {
+            // alias / layout variants of one token sequence, and a structurally different partner
+            let mut vars = Vec::new();
+            let mut first: Option<wirefilter::FilterAst> = None;
+            for vi in 0..4 {
+                let tv = if vi == 0 { ts.clone() } else { alias_variant(&mut r, &ts) };
+                let sv = if vi == 0 { src.clone() } else { random_layout(&mut r, &tv) };
+                vars.push(observe_canon(&w, si + 1, max, &sv, &mut first));
+            }
+            let ts2 = {
+                let t2 = mutate(&mut r, &ts, spec);
+                alias_variant(&mut r, &t2)
+            };
+            let src2 = random_layout(&mut r, &ts2);
+            let mut other: Option<wirefilter::FilterAst> = None;
+            let o2 = observe_canon(&w, si + 1, max, &src2, &mut other);
+            let eq12 = match (&first, &other) {
+                (Some(x), Some(y)) => x == y,
+                _ => false,
+            };
+            *stats.entry(format!("canon.{}", vars[0]["ok"])).or_default() += 1;
+            json!({"ev": "canon", "id": k, "sch": si + 1, "max": max, "ts": ts, "src": src, "vars": vars,
+                   "ts2": ts2, "other": o2, "eq12": eq12})
+        } else if value_mode {
             let o = observe_value(&w, si + 1, max, &src, &by_scheme[si], &uses);
             *stats.entry(format!("value.{}", o.out)).or_default() += 1;
             json!({"ev": "value", "id": k, "sch": si + 1, "max": max, "ts": ts, "src": src,
